@@ -297,7 +297,7 @@ def resolve(path):
 
 
 ALLOWED_ROOTS = {'numpy', 'pandas', 'math', 'operator', 'itertools', 'functools', 'collections', 'datetime', 'statistics', 'bisect', 'builtins', 're',
-                 'geographiclib', 'copy', 'unicodedata', 'string', 'textwrap', 'numbers', 'fractions', 'decimal'}
+                 'geographiclib', 'copy', 'unicodedata', 'string', 'textwrap', 'numbers', 'fractions', 'decimal', 'calendar'}
 
 
 def real_call(interp, fn_desc, target, args, kwargs, node):
